@@ -494,8 +494,10 @@ __goon:
 	for {
 		switch l.next() {
 		case utf8.RuneError:
-			l.errorf("invalid UTF-8 rune")
-			return lexRawString
+			if l.width == 1 { // an undecodable byte; the character U+FFFD itself is three bytes wide
+				l.errorf("invalid UTF-8 rune")
+				return lexRawString
+			}
 		case eof:
 			l.errorf("unterminated raw string")
 			return lexRawString
@@ -586,7 +588,9 @@ __goon:
 			return l.errorf("unterminated quoted string within lexMultilineString")
 
 		case utf8.RuneError:
-			l.errorf("invalid UTF-8 rune")
+			if l.width == 1 { // an undecodable byte; the character U+FFFD itself is three bytes wide
+				l.errorf("invalid UTF-8 rune")
+			}
 
 		case '"', '\'':
 			if t := l.peek(); t == '"' || t == '\'' {
@@ -612,7 +616,9 @@ __goon:
 			return lexEscape
 
 		case utf8.RuneError:
-			l.errorf("invalid UTF-8 rune")
+			if l.width == 1 { // an undecodable byte; the character U+FFFD itself is three bytes wide
+				l.errorf("invalid UTF-8 rune")
+			}
 
 		case eof, '\n':
 			return l.errorf("unterminated quoted string within lexString")
